@@ -17,6 +17,16 @@ type config struct {
 	pk    []string // package letters: a b c
 	vars  []string
 	funcs []string
+	// ext selects the additional operation families (see extOps):
+	//  L  further Lisp operations on packages and symbols: intern, unintern, delete-package, defpackage / make-package
+	//     (on a deleted name: creation, on an existing one: redefinition) with :use / :export, rename-package
+	//  R  the same base operations by the other route: evaluated in the home package with an explicit package
+	//     argument or a package-qualified name (export / unexport / use-package / unuse-package n 'p, (defun p::f ..),
+	//     (setq p::v ..))
+	//  G  the Go extension interface at run time: Package.Define (exported and NoExport), Package.Set, Package.Import
+	//  K  lock-package / unlock-package
+	ext   string
+	seeds [][]string // prepared states (configurations explored from seeds only)
 }
 
 var (
@@ -26,8 +36,30 @@ var (
 	fullCfg  = &config{tag: 'F', pk: []string{"a", "b", "c"}, vars: []string{"v", "w"}, funcs: []string{"f", "g"}}
 	// seedCfg is the full configuration explored from prepared three-package
 	// states (seeds) instead of from the empty one.
-	seedCfg = &config{tag: 'G', pk: []string{"a", "b", "c"}, vars: []string{"v", "w"}, funcs: []string{"f", "g"}}
+	seedCfg = &config{tag: 'G', pk: []string{"a", "b", "c"}, vars: []string{"v", "w"}, funcs: []string{"f", "g"}, seeds: seeds}
+	// lispCfg: two packages, the base alphabet and every further package /
+	// symbol operation slip defines, both routes.
+	lispCfg = &config{tag: 'L', pk: []string{"a", "b"}, vars: []string{"v"}, funcs: []string{"f"}, ext: "LR"}
+	// goCfg: two packages, the base alphabet and the Go extension interface.
+	goCfg = &config{tag: 'X', pk: []string{"a", "b"}, vars: []string{"v"}, funcs: []string{"f"}, ext: "GK"}
+	// wideCfg: three packages x one variable x one function, every family,
+	// explored from the empty state and from prepared states.
+	wideCfg  = &config{tag: 'H', pk: []string{"a", "b", "c"}, vars: []string{"v"}, funcs: []string{"f"}, ext: "LRGK"}
+	wideSeed = &config{tag: 'I', pk: []string{"a", "b", "c"}, vars: []string{"v"}, funcs: []string{"f"}, ext: "LRGK", seeds: wideSeeds}
 )
+
+// wideSeeds: three-package states with imports, Go definitions and two used
+// packages - what the operations of the further families need to bite on.
+var wideSeeds = [][]string{
+	// a uses two packages (with cl-user three): delete-package has three edges to take away
+	{"b.defvar.v", "b.export.v", "c.defun.f", "c.export.f", "a.use.b", "a.use.c"},
+	// a imports a private variable and a private function of c, b uses a
+	{"c.defvar.v", "c.defun.f", "a.goimport.cv", "a.goimport.cf", "b.use.a"},
+	// Go-defined exported and private functions / variables with a user, and a chain
+	{"a.godef.f", "a.goset.v", "a.export.v", "b.use.a", "c.use.b"},
+	// b exports names before they are defined; a (owning both names) and c use it
+	{"b.export.v", "b.export.f", "a.defvar.v", "a.defun.f", "a.use.b", "c.use.b"},
+}
 
 // seeds: operation sequences (package.kind.arg) that build the richer
 // three-package states a short history from the empty state cannot reach.
@@ -43,9 +75,11 @@ var seeds = [][]string{
 }
 
 // seedOps returns the root operations of the seeded exploration.
-func seedOps(limit int) (out []string) {
-	for i := range seeds {
-		out = append(out, fmt.Sprintf("G%da.seed.%d", limit, i))
+func seedOps(limit int) (out []string) { return seedCfg.seedOps(limit) }
+
+func (c *config) seedOps(limit int) (out []string) {
+	for i := range c.seeds {
+		out = append(out, fmt.Sprintf("%c%da.seed.%d", c.tag, limit, i))
 	}
 	return
 }
@@ -57,7 +91,7 @@ func (o op) expand() (out []op) {
 		return []op{o}
 	}
 	k, _ := strconv.Atoi(o.arg)
-	for _, s := range seeds[k] {
+	for _, s := range o.cfg.seeds[k] {
 		x, _ := parseOp(fmt.Sprintf("%c%d%s", o.cfg.tag, o.limit, s))
 		out = append(out, x)
 	}
@@ -76,9 +110,19 @@ func cfgOf(tag byte) *config {
 		return fullCfg
 	case 'G':
 		return seedCfg
+	case 'L':
+		return lispCfg
+	case 'X':
+		return goCfg
+	case 'H':
+		return wideCfg
+	case 'I':
+		return wideSeed
 	}
 	return nil
 }
+
+func (c *config) has(family byte) bool { return 0 <= strings.IndexByte(c.ext, family) }
 
 func (c *config) names() []string { return append(append([]string{}, c.vars...), c.funcs...) }
 
@@ -132,6 +176,66 @@ func (c *config) ops(limit int) []string {
 			add(p, "fmakunbound", f)
 		}
 	}
+	// the further families after the whole base alphabet (simplest first)
+	for _, p := range c.pk {
+		others := func(f func(q string)) {
+			for _, q := range c.pk {
+				if q != p {
+					f(q)
+				}
+			}
+		}
+		if c.has('L') {
+			for _, n := range c.names() {
+				add(p, "intern", n)
+			}
+			for _, n := range c.names() {
+				add(p, "unintern", n)
+			}
+			add(p, "delpkg", "-")
+			add(p, "mkpkg", "-")
+			add(p, "makepkg", "-")
+			others(func(q string) { add(p, "mkpkgu", q) })
+			for _, n := range c.names() {
+				add(p, "mkpkgx", n)
+			}
+			add(p, "rename", "-")
+		}
+		if c.has('R') {
+			for _, n := range c.names() {
+				add(p, "xexport", n)
+			}
+			for _, n := range c.names() {
+				add(p, "xunexport", n)
+			}
+			others(func(q string) { add(p, "xuse", q) })
+			others(func(q string) { add(p, "xunuse", q) })
+			for _, f := range c.funcs {
+				add(p, "xdefun", f)
+			}
+			for _, v := range c.vars {
+				add(p, "xsetq", v)
+			}
+		}
+		if c.has('G') {
+			for _, f := range c.funcs {
+				add(p, "godef", f)
+				add(p, "godefp", f)
+			}
+			for _, v := range c.vars {
+				add(p, "goset", v)
+			}
+			others(func(q string) {
+				for _, n := range c.names() {
+					add(p, "goimport", q+n)
+				}
+			})
+		}
+		if c.has('K') {
+			add(p, "lock", "-")
+			add(p, "unlock", "-")
+		}
+	}
 	return out
 }
 
@@ -140,8 +244,63 @@ type op struct {
 	limit int
 	actor int
 	kind  string
-	arg   string // name, or package letter for use/unuse
-	argPk int    // index of the package argument (use/unuse), else -1
+	arg   string // the argument as written: a name, a package letter, letter+name (goimport) or "-"
+	argPk int    // index of the package argument (use / unuse / mkpkgu / goimport ...), else -1
+	name  string // the name the operation is about, "" if none
+}
+
+// base maps the operation kinds that are another route to a base operation
+// (package argument / qualified name, evaluated in the home package) to it.
+func (o *op) base() string {
+	switch o.kind {
+	case "xexport", "xunexport", "xuse", "xunuse", "xdefun", "xsetq":
+		return o.kind[1:]
+	case "goset": // Package.Set with the package current: what setq does
+		return "setq"
+	}
+	return o.kind
+}
+
+// val is the value the operation writes (it identifies the writer and the route).
+func (o *op) val() int {
+	switch o.kind {
+	case "defvar":
+		return defvarVal(o.actor)
+	case "setq":
+		return setqVal(o.actor)
+	case "defun":
+		return defunVal(o.actor)
+	case "godef":
+		return godefVal(o.actor)
+	case "godefp":
+		return godefpVal(o.actor)
+	case "goset":
+		return gosetVal(o.actor)
+	case "xsetq":
+		return xsetqVal(o.actor)
+	case "xdefun":
+		return xdefunVal(o.actor)
+	}
+	return -9
+}
+
+// fromHome: the operation is evaluated with the home package (cl-user) as the
+// current package and names the package it acts on.
+func (o *op) fromHome() bool {
+	switch o.kind {
+	case "xexport", "xunexport", "xuse", "xunuse", "xdefun", "xsetq", "delpkg", "mkpkg", "makepkg", "mkpkgu", "mkpkgx", "rename", "lock", "unlock":
+		return true
+	}
+	return false
+}
+
+// creates: the operation (re)creates the package it names.
+func (o *op) creates() bool {
+	switch o.kind {
+	case "mkpkg", "makepkg", "mkpkgu", "mkpkgx":
+		return true
+	}
+	return false
 }
 
 func parseOp(s string) (o op, ok bool) {
@@ -164,20 +323,50 @@ func parseOp(s string) (o op, ok bool) {
 		return
 	}
 	switch o.kind {
-	case "use", "unuse":
+	case "use", "unuse", "xuse", "xunuse", "mkpkgu":
 		o.argPk = indexOf(o.cfg.pk, o.arg)
 		ok = 0 <= o.argPk && o.argPk != o.actor
-	case "defvar", "setq", "makunbound":
+	case "defvar", "setq", "makunbound", "xsetq", "goset":
 		ok = o.cfg.isVar(o.arg)
-	case "defun", "fmakunbound":
+		o.name = o.arg
+	case "defun", "fmakunbound", "xdefun", "godef", "godefp":
 		ok = 0 <= indexOf(o.cfg.funcs, o.arg)
-	case "export", "unexport":
+		o.name = o.arg
+	case "export", "unexport", "xexport", "xunexport", "intern", "unintern", "mkpkgx":
 		ok = 0 <= indexOf(o.cfg.names(), o.arg)
+		o.name = o.arg
+	case "delpkg", "mkpkg", "makepkg", "rename", "lock", "unlock":
+		ok = o.arg == "-"
+	case "goimport":
+		if 2 <= len(o.arg) {
+			o.argPk = indexOf(o.cfg.pk, o.arg[:1])
+			o.name = o.arg[1:]
+			ok = 0 <= o.argPk && o.argPk != o.actor && 0 <= indexOf(o.cfg.names(), o.name)
+		}
 	case "seed":
 		k, err := strconv.Atoi(o.arg)
-		ok = err == nil && 0 <= k && k < len(seeds) && o.cfg == seedCfg
+		ok = err == nil && 0 <= k && k < len(o.cfg.seeds)
+	}
+	if ok && o.kind != "seed" && !o.cfg.allows(o.kind) {
+		ok = false
 	}
 	return
+}
+
+// allows: is the operation kind part of the configuration's alphabet? (Seeds
+// may use any kind of the families the configuration has.)
+func (c *config) allows(kind string) bool {
+	switch kind {
+	case "intern", "unintern", "delpkg", "mkpkg", "makepkg", "mkpkgu", "mkpkgx", "rename":
+		return c.has('L')
+	case "xexport", "xunexport", "xuse", "xunuse", "xdefun", "xsetq":
+		return c.has('R')
+	case "godef", "godefp", "goset", "goimport":
+		return c.has('G')
+	case "lock", "unlock":
+		return c.has('K')
+	}
+	return true
 }
 
 func indexOf(l []string, s string) int {
@@ -193,6 +382,11 @@ func indexOf(l []string, s string) int {
 func defvarVal(p int) int { return 10 + p }
 func setqVal(p int) int   { return 20 + p }
 func defunVal(p int) int  { return 30 + p }
+func godefVal(p int) int  { return 40 + p } // Package.Define, exported
+func godefpVal(p int) int { return 50 + p } // Package.Define, NoExport
+func gosetVal(p int) int  { return 60 + p } // Package.Set
+func xsetqVal(p int) int  { return 70 + p } // (setq p::v ..) from the home package
+func xdefunVal(p int) int { return 80 + p } // (defun p::f ..) from the home package
 
 const unboundVal = -1 // an own entry that exists but is unbound (export before definition)
 
@@ -206,12 +400,26 @@ type def struct {
 	hidden bool // (from the implementation only) entry reachable through p::n only
 	stale  bool // (from the implementation only) orphaned copy of a cell its home package no longer holds
 	cell   int  // (from the implementation only) identity of the underlying cell
+	// orphanOf: the definition is an import its source has dropped or replaced
+	// since; the cell still names the source as its home (1 + package index, 0 = not an orphan)
+	orphanOf int
 }
 
 type mpkg struct {
 	vars  map[string]*def // may also hold unbound exported placeholders for function names
 	funcs map[string]*def
 	uses  []int
+	// imports: names imported through the Go extension interface
+	// (Package.Import), with the package they were imported from and the
+	// kind of definition that was imported
+	imports map[string]*imp
+	deleted bool // delete-package: the name designates no package
+	locked  bool
+}
+
+type imp struct {
+	from int
+	kind byte // 'v' or 'f'; 0 = the record exists, the table holds nothing for it
 }
 
 type graph struct {
@@ -224,6 +432,7 @@ func newGraph(c *config) *graph {
 	for i := range g.p {
 		g.p[i].vars = map[string]*def{}
 		g.p[i].funcs = map[string]*def{}
+		g.p[i].imports = map[string]*imp{}
 	}
 	return g
 }
@@ -242,8 +451,46 @@ func (g *graph) clone() *graph {
 			n.p[i].funcs[k] = &c
 		}
 		n.p[i].uses = append([]int(nil), p.uses...)
+		n.p[i].imports = map[string]*imp{}
+		for k, m := range p.imports {
+			c := *m
+			n.p[i].imports[k] = &c
+		}
+		n.p[i].deleted, n.p[i].locked = p.deleted, p.locked
 	}
 	return n
+}
+
+// wipe makes p a deleted package: no definitions, no edges from or to it.
+func (g *graph) wipe(p int) {
+	g.p[p].vars = map[string]*def{}
+	g.p[p].funcs = map[string]*def{}
+	g.p[p].imports = map[string]*imp{}
+	g.p[p].uses = nil
+	g.p[p].locked = false
+	for i := range g.p {
+		var nu []int
+		for _, u := range g.p[i].uses {
+			if u != p {
+				nu = append(nu, u)
+			}
+		}
+		g.p[i].uses = nu
+		for n, m := range g.p[i].imports {
+			if m.from == p {
+				delete(g.p[i].imports, n)
+			}
+		}
+	}
+}
+
+func (g *graph) users(p int) (out []int) {
+	for i := range g.p {
+		if g.usesPkg(i, p) {
+			out = append(out, i)
+		}
+	}
+	return
 }
 
 func (g *graph) tab(p int, kind byte) map[string]*def {
@@ -267,9 +514,30 @@ func (g *graph) usesPkg(p, q int) bool {
 func (g *graph) String() string {
 	var b strings.Builder
 	for i, p := range g.p {
-		fmt.Fprintf(&b, "%s{uses=", g.cfg.pk[i])
+		if p.deleted {
+			fmt.Fprintf(&b, "%s{deleted} ", g.cfg.pk[i])
+			continue
+		}
+		fmt.Fprintf(&b, "%s{", g.cfg.pk[i])
+		if p.locked {
+			b.WriteString("locked ")
+		}
+		b.WriteString("uses=")
 		for _, u := range p.uses {
 			b.WriteString(g.cfg.pk[u])
+		}
+		var inames []string
+		for n := range p.imports {
+			inames = append(inames, n)
+		}
+		sort.Strings(inames)
+		for _, n := range inames {
+			m := p.imports[n]
+			k := "?"
+			if m.kind != 0 {
+				k = string(m.kind)
+			}
+			fmt.Fprintf(&b, " import:%s<-%s/%s", n, g.cfg.pk[m.from], k)
 		}
 		for _, kind := range []byte{'v', 'f'} {
 			t := g.tab(i, kind)
@@ -357,6 +625,8 @@ type rules struct {
 	privateInherited bool // M: unexported definitions of used packages are visible
 	extIgnoresExport bool // M: p:n reaches unexported definitions
 	usedShadowsOwn   bool // M: an exported definition of a used package wins over the own one
+	importInvisible  bool // M: a name imported through the Go interface does not resolve
+	importExportOnly bool // M: an imported name resolves only if its definition is exported
 }
 
 // resolveUnq: acceptable results of evaluating n unqualified in package p.
@@ -389,6 +659,21 @@ func (g *graph) resolveUnq(r rules, p int, kind byte, n string) set {
 		placeholder = true
 	}
 	required := false
+	// a name imported through the Go extension interface resolves to the
+	// definition the package it was imported from has, exported or not
+	if m := g.p[p].imports[n]; m != nil && m.kind == kind && !r.importInvisible {
+		d := g.tab(m.from, kind)[n]
+		switch {
+		case d != nil && !d.hidden && d.val != unboundVal && (d.exp || !r.importExportOnly):
+			s.add(valStr(d.val))
+			required = true
+		default:
+			// the definition is gone (or never was more than a placeholder):
+			// unbound, unless the source now shows something it inherits itself
+			placeholder = true
+			g.inheritedOptional(m.from, kind, n, s)
+		}
+	}
 	for _, q := range direct {
 		if d := g.tab(q, kind)[n]; d != nil && !d.hidden && (d.exp || r.privateInherited) {
 			if d.val == unboundVal {
@@ -404,10 +689,32 @@ func (g *graph) resolveUnq(r rules, p int, kind byte, n string) set {
 			s.add(valStr(d.val))
 		}
 	}
+	// what the used packages import may be passed on (not required: the
+	// statement speaks of the exported definitions of a used package)
+	for _, q := range append(append([]int(nil), direct...), indirect...) {
+		g.importedOptional(q, kind, n, s)
+	}
 	if !required || placeholder {
 		s.add("U")
 	}
 	return s
+}
+
+// importedOptional: the bound definition behind an import of package p.
+func (g *graph) importedOptional(p int, kind byte, n string, s set) {
+	if m := g.p[p].imports[n]; m != nil && m.kind == kind && !g.p[m.from].deleted {
+		if d := g.tab(m.from, kind)[n]; d != nil && !d.hidden && d.val != unboundVal {
+			s.add(valStr(d.val))
+		} else if d == nil {
+			// the source holds the name by inheritance: the import is what it inherits
+			direct, indirect := g.closure(m.from)
+			for _, q := range append(direct, indirect...) {
+				if d := g.tab(q, kind)[n]; d != nil && !d.hidden && d.exp && d.val != unboundVal {
+					s.add(valStr(d.val))
+				}
+			}
+		}
+	}
 }
 
 // inheritedOptional: exported bound definitions anywhere in the use closure.
@@ -417,7 +724,9 @@ func (g *graph) inheritedOptional(p int, kind byte, n string, s set) {
 		if d := g.tab(q, kind)[n]; d != nil && !d.hidden && d.exp && d.val != unboundVal {
 			s.add(valStr(d.val))
 		}
+		g.importedOptional(q, kind, n, s)
 	}
+	g.importedOptional(p, kind, n, s)
 }
 
 // resolveExt: q:n evaluated with current package c.
@@ -429,7 +738,7 @@ func (g *graph) resolveExt(r rules, c, q int, kind byte, n string) set {
 		s.add(valStr(d.val))
 	case d != nil && !d.hidden && d.val != unboundVal:
 		s.add("U")
-		if c == q { // the statement does not speak of q:n used inside q itself
+		if c == q || d.orphanOf == c+1 { // the statement does not speak of q:n used inside q itself, nor inside the package the definition came from
 			s.add(valStr(d.val))
 		}
 	case d != nil && !d.hidden: // unbound placeholder: not a definition; inherited names may show through
@@ -518,6 +827,12 @@ func (g *graph) letters(l []int) string {
 
 // expected returns the acceptable observations of one slot.
 func (g *graph) expected(r rules, sl slot) set {
+	if g.p[sl.c].deleted {
+		return set{"D": true} // no such current package: nothing can be asked from inside it
+	}
+	if g.p[sl.q].deleted {
+		return set{"U": true} // the name designates no package
+	}
 	switch sl.form {
 	case "uses":
 		return set{"(" + g.letters(g.p[sl.c].uses) + ")": true}
@@ -561,6 +876,9 @@ type mut struct {
 	fmakunboundNothing bool // fmakunbound removes nothing
 	exportNoEffect     bool // export does not set the flag
 	defunInUsed        bool // defun also overwrites the same-named function of used packages
+	deleteKeepsEdges   bool // delete-package leaves the use edges from and to the package
+	godefNotExported   bool // a function defined through Package.Define is not exported
+	reexportSkipsUsers bool // (simulated hidden state) export of a name that is already listed does not reach the users
 }
 
 type cand struct {
@@ -575,14 +893,252 @@ func (g *graph) inheritedCands(p int, kind byte, n string) (out []cand) {
 			out = append(out, cand{q, d})
 		}
 	}
+	// a name imported through the Go interface is the definition object of the
+	// package it was imported from (Common Lisp: the same symbol): what is done
+	// to the name in the importer may be done to that definition
+	if m := g.p[p].imports[n]; m != nil && m.kind == kind && !g.p[m.from].deleted {
+		if d := g.tab(m.from, kind)[n]; d != nil && !d.hidden {
+			out = append(out, cand{m.from, d})
+		}
+	}
 	return
+}
+
+// importers returns the packages that imported p's definition of n.
+func (g *graph) importers(p int, kind byte, n string) (out []int) {
+	for x := range g.p {
+		if m := g.p[x].imports[n]; m != nil && m.from == p && m.kind == kind && x != p {
+			out = append(out, x)
+		}
+	}
+	return
+}
+
+// orphaned: a is a successor of g in which package p dropped or replaced its
+// definition of n. Returns the variant of a in which the packages that had
+// imported that definition keep it as their own (slip hands the definition
+// object over at import time; Common Lisp: an imported symbol stays present in
+// the importer when its home package uninterns it), nil if nobody imported it.
+func (g *graph) orphaned(a *graph, p int, kind byte, n string) *graph {
+	d := g.tab(p, kind)[n]
+	xs := g.importers(p, kind, n)
+	if d == nil || len(xs) == 0 {
+		return nil
+	}
+	b := a.clone()
+	for _, x := range xs {
+		if b.p[x].deleted {
+			continue
+		}
+		if b.tab(x, kind)[n] == nil {
+			b.tab(x, kind)[n] = &def{val: d.val, exp: d.exp, orphanOf: p + 1}
+		}
+		if m := b.p[x].imports[n]; m != nil {
+			m.kind = 0
+		}
+	}
+	return b
 }
 
 // step returns the acceptable successor graphs of g under o. mayErr reports
 // whether the operation may also signal an error (and then change nothing).
 func (g *graph) step(m mut, o op) (alts []*graph, mayErr bool) {
+	alts, mayErr = g.stepCore(m, o)
 	p := o.actor
+	// operations that drop or replace a definition: what the packages that
+	// imported it are left with
+	var kinds []byte
 	switch o.kind {
+	case "makunbound":
+		kinds = []byte{'v'}
+	case "fmakunbound", "godef", "godefp":
+		kinds = []byte{'f'}
+	case "unintern":
+		kinds = []byte{'v', 'f'}
+	}
+	for _, kind := range kinds {
+		for _, a := range append([]*graph(nil), alts...) {
+			if b := g.orphaned(a, p, kind, o.name); b != nil {
+				alts = append(alts, b)
+			}
+		}
+	}
+	if o.kind == "delpkg" {
+		for _, a := range append([]*graph(nil), alts...) {
+			if !a.p[p].deleted {
+				continue
+			}
+			b := a
+			any := false
+			for _, kind := range []byte{'v', 'f'} {
+				for _, n := range g.cfg.names() {
+					if x := g.orphaned(b, p, kind, n); x != nil {
+						b, any = x, true
+					}
+				}
+			}
+			if any {
+				alts = append(alts, b)
+			}
+		}
+	}
+	switch {
+	case o.kind == "lock" || o.kind == "unlock" || o.creates() || o.kind == "delpkg":
+		// handled in stepCore
+	case g.p[p].locked:
+		// a locked package: the operation may be refused (nothing changes) or
+		// carried out - the statement does not speak of locks; what it says about
+		// visibility holds either way
+		alts = append(alts, g.clone())
+		mayErr = true
+	}
+	if o.fromHome() && !o.creates() && o.kind != "delpkg" && o.kind != "rename" && o.kind != "lock" && o.kind != "unlock" {
+		// the other route (package argument / qualified name): slip documents no
+		// difference; (setq p::v ..) of a name the package does not have, or has
+		// privately, is silently ignored - accepted (the statement speaks of
+		// names resolved in a package, not of assignment from outside)
+		if o.kind == "xsetq" {
+			alts = append(alts, g.clone())
+		}
+	}
+	return
+}
+
+func (g *graph) stepCore(m mut, o op) (alts []*graph, mayErr bool) {
+	p := o.actor
+	if g.p[p].deleted && !o.creates() {
+		// the operation names a package that does not exist: an error, nothing changes
+		return []*graph{g.clone()}, true
+	}
+	if 0 <= o.argPk && g.p[o.argPk].deleted {
+		return []*graph{g.clone()}, true
+	}
+	switch o.base() {
+	case "lock", "unlock":
+		a := g.clone()
+		a.p[p].locked = o.kind == "lock"
+		alts = append(alts, a)
+	case "rename":
+		// another name for the same package: nothing a name resolves to changes
+		alts = append(alts, g.clone())
+		if g.p[p].locked {
+			mayErr = true
+		}
+	case "delpkg":
+		a := g.clone()
+		a.wipe(p)
+		a.p[p].deleted = true
+		if m.deleteKeepsEdges {
+			a = g.clone()
+			a.p[p].vars, a.p[p].funcs, a.p[p].imports = map[string]*def{}, map[string]*def{}, map[string]*imp{}
+			a.p[p].deleted = true
+		}
+		if 0 < len(g.users(p)) || g.p[p].locked {
+			// Common Lisp: a correctable error while other packages use it;
+			// slip refuses, and refuses to delete a locked package
+			alts = append(alts, g.clone())
+			mayErr = true
+		}
+		alts = append(alts, a)
+	case "mkpkg", "makepkg", "mkpkgu", "mkpkgx":
+		if !g.p[p].deleted {
+			// the name is taken: slip signals an error; Common Lisp's defpackage
+			// would bring the existing package in line with the options (adds)
+			alts = append(alts, g.clone())
+			mayErr = true
+			switch o.kind {
+			case "mkpkgu":
+				x, _ := g.stepCore(m, op{cfg: o.cfg, actor: p, kind: "use", argPk: o.argPk, arg: o.arg})
+				alts = append(alts, x...)
+			case "mkpkgx":
+				x, _ := g.stepCore(m, op{cfg: o.cfg, actor: p, kind: "export", argPk: -1, arg: o.arg, name: o.name})
+				alts = append(alts, x...)
+			}
+			break
+		}
+		a := g.clone()
+		a.p[p].deleted = false
+		switch o.kind {
+		case "mkpkgu":
+			a.p[p].uses = []int{o.argPk}
+			alts = append(alts, a)
+		case "mkpkgx":
+			alts = append(alts, a) // the name is not remembered
+			b := a.clone()         // or as an exported unbound placeholder
+			b.p[p].vars[o.name] = &def{val: unboundVal, exp: true}
+			alts = append(alts, b)
+		default:
+			alts = append(alts, a)
+		}
+	case "intern":
+		alts = append(alts, g.clone())
+		if g.p[p].vars[o.name] == nil && g.p[p].imports[o.name] == nil && len(g.inheritedCands(p, 'v', o.name)) == 0 {
+			// no symbol of that name is accessible: one is made present in the
+			// package, without a value
+			a := g.clone()
+			a.p[p].vars[o.name] = &def{val: unboundVal}
+			alts = append(alts, a)
+		}
+	case "unintern":
+		// the variable side is makunbound's; Common Lisp also makes the
+		// function unreachable by that name, slip keeps it
+		va, _ := g.stepCore(m, op{cfg: o.cfg, actor: p, kind: "makunbound", argPk: -1, arg: o.arg, name: o.name})
+		for _, a := range va {
+			alts = append(alts, a)
+			fa, _ := a.stepCore(m, op{cfg: o.cfg, actor: p, kind: "fmakunbound", argPk: -1, arg: o.arg, name: o.name})
+			alts = append(alts, fa...)
+		}
+	case "godef", "godefp":
+		val, exp := godefVal(p), true
+		if o.kind == "godefp" {
+			val, exp = godefpVal(p), false
+		}
+		// Package.Define: the package has this function from now on, whatever it
+		// had or inherited under the name before
+		a := g.clone()
+		a.p[p].funcs[o.name] = &def{val: val, exp: exp}
+		if ph := a.p[p].vars[o.name]; ph != nil && ph.val == unboundVal {
+			b := a.clone() // an export-before-definition placeholder may be consumed
+			delete(b.p[p].vars, o.name)
+			alts = append(alts, b)
+		}
+		alts = append(alts, a)
+		if m.godefNotExported {
+			a.p[p].funcs[o.name].exp = false
+		}
+	case "goimport":
+		q := o.argPk
+		any := false
+		for _, kind := range []byte{'v', 'f'} {
+			// what the source package holds under the name: its own entry
+			// (also an unbound one), or what it inherits or imports itself
+			has := g.tab(q, kind)[o.name] != nil || 0 < len(g.inheritedCands(q, kind, o.name))
+			if im := g.p[q].imports[o.name]; im != nil && im.kind == kind {
+				has = true
+			}
+			if !has {
+				continue
+			}
+			any = true
+			a := g.clone()
+			a.p[p].imports[o.name] = &imp{from: q, kind: kind}
+			alts = append(alts, a)
+			if own := a.tab(p, kind)[o.name]; own != nil {
+				// the package has a definition of its own under the name: Common
+				// Lisp signals a conflict, slip lets the import replace it - the
+				// statement's list of operations that must not lose a definition
+				// does not include the import
+				b := a.clone()
+				delete(b.tab(p, kind), o.name)
+				alts = append(alts, b)
+				alts = append(alts, g.clone())
+				mayErr = true
+			}
+		}
+		if !any {
+			alts = append(alts, g.clone()) // nothing to import: an error, nothing changes
+			mayErr = true
+		}
 	case "use":
 		a := g.clone()
 		if !a.usesPkg(p, o.argPk) {
@@ -656,7 +1212,7 @@ func (g *graph) step(m mut, o op) (alts []*graph, mayErr bool) {
 			alts = append(alts, g.clone())
 		case own != nil:
 			a := g.clone()
-			a.p[p].vars[o.arg].val = defvarVal(p)
+			a.p[p].vars[o.arg].val = o.val()
 			alts = append(alts, a)
 		default:
 			cs := g.inheritedCands(p, 'v', o.arg)
@@ -672,39 +1228,39 @@ func (g *graph) step(m mut, o op) (alts []*graph, mayErr bool) {
 			for _, c := range cs {
 				if c.d.val == unboundVal { // the inherited placeholder receives the value
 					a := g.clone()
-					a.p[c.q].vars[o.arg].val = defvarVal(p)
+					a.p[c.q].vars[o.arg].val = o.val()
 					alts = append(alts, a)
 				}
 			}
 			a := g.clone() // the package gets its own definition
-			a.p[p].vars[o.arg] = &def{val: defvarVal(p)}
+			a.p[p].vars[o.arg] = &def{val: o.val()}
 			alts = append(alts, a)
 		}
 	case "setq":
 		own := g.p[p].vars[o.arg]
 		if own != nil {
 			a := g.clone()
-			a.p[p].vars[o.arg].val = setqVal(p)
+			a.p[p].vars[o.arg].val = o.val()
 			alts = append(alts, a)
 			break
 		}
 		for _, c := range g.inheritedCands(p, 'v', o.arg) {
 			a := g.clone()
-			a.p[c.q].vars[o.arg].val = setqVal(p)
+			a.p[c.q].vars[o.arg].val = o.val()
 			alts = append(alts, a)
 		}
 		a := g.clone()
-		a.p[p].vars[o.arg] = &def{val: setqVal(p)}
+		a.p[p].vars[o.arg] = &def{val: o.val()}
 		alts = append(alts, a)
 	case "defun":
 		own := g.p[p].funcs[o.arg]
 		if own != nil && !own.hidden {
 			a := g.clone()
-			a.p[p].funcs[o.arg].val = defunVal(p)
+			a.p[p].funcs[o.arg].val = o.val()
 			if m.defunInUsed {
 				for _, q := range a.p[p].uses {
 					if d := a.p[q].funcs[o.arg]; d != nil {
-						d.val = defunVal(p)
+						d.val = o.val()
 					}
 				}
 			}
@@ -719,7 +1275,7 @@ func (g *graph) step(m mut, o op) (alts []*graph, mayErr bool) {
 		for _, c := range g.inheritedCands(p, 'f', o.arg) {
 			// Common Lisp reading: the inherited symbol's function is redefined
 			a := g.clone()
-			a.p[c.q].funcs[o.arg].val = defunVal(p)
+			a.p[c.q].funcs[o.arg].val = o.val()
 			alts = append(alts, a)
 		}
 		exps := []bool{exp}
@@ -740,14 +1296,14 @@ func (g *graph) step(m mut, o op) (alts []*graph, mayErr bool) {
 		for _, e := range exps {
 			for _, keepPh := range keeps {
 				a := g.clone()
-				a.p[p].funcs[o.arg] = &def{val: defunVal(p), exp: e}
+				a.p[p].funcs[o.arg] = &def{val: o.val(), exp: e}
 				if ph != nil && ph.val == unboundVal && !keepPh {
 					delete(a.p[p].vars, o.arg)
 				}
 				if m.defunInUsed {
 					for _, q := range a.p[p].uses {
 						if d := a.p[q].funcs[o.arg]; d != nil {
-							d.val = defunVal(p)
+							d.val = o.val()
 						}
 					}
 				}
